@@ -14,7 +14,8 @@ from ..sym.npx import SymArray, lift
 
 TECHNIQUE = ("term-valued symbolic execution of the real NumPy code of DriftCorrection.preprocess (knot construction), "
              "DriftInterpolator.transform_rows/transform_coordinates and bilinear_kde's splat on a symbolic scan direction "
-             "(cos/sin atom pair) and symbolic sample coordinates; geometry and unit-weight identities decided by z3 (QF_NRA)")
+             "(cos/sin atom pair) and symbolic sample coordinates; geometry and unit-weight identities decided by z3 (QF_NRA); the real "
+             "DriftCorrection.align_translation + cross_correlation_shift on identical images with a symbolic power spectrum (fixed point)")
 PID = "C15"
 
 
@@ -116,6 +117,61 @@ def weight_claim(shape, out_shape):
     return claim
 
 
+class _FFTStub:
+    """np.fft of the drift module: fft2 of the (identical) warped images answers their common spectrum"""
+
+    def __init__(self, inner, spectrum):
+        self._inner, self._spectrum = inner, spectrum
+
+    def __getattr__(self, name):
+        return getattr(self._inner, name)
+
+    def fft2(self, a, *args, **kw):
+        return self._spectrum
+
+
+def fixed_point_claim(n_images, up, shape=(4, 4), min_shift=None):
+    """identical warped images: the real align_translation measures zero relative shifts and leaves the knots where they are.
+    The common spectrum is sqrt(q_k) with symbolic q_k (the estimator only sees the products |F_k|^2 = q_k)."""
+    def claim(I):
+        q = I.array("q", shape, lo=0.01, hi=1.0)
+        rows, nk = 3, 2
+        knots0 = [np.stack([np.linspace(0.5, 2.5, rows)[:, None] + 0.25 * np.arange(nk)[None, :] + i,
+                            np.linspace(1.0, 2.0, rows)[:, None] - 0.5 * np.arange(nk)[None, :]]) for i in range(n_images)]
+        dc = drift.DriftCorrection.__new__(drift.DriftCorrection)
+        dc.shape = (n_images,) + tuple(shape)
+        warped_calls = []
+
+        class _Interp:
+            def warp_image(self, image, knots, **kw):
+                warped_calls.append(knots)
+                return np.zeros(shape), np.zeros(shape)
+        dc.interpolator = [_Interp() for _ in range(n_images)]
+        dc._images = [types.SimpleNamespace(array=np.zeros((3, 3)), shape=(3, 3)) for _ in range(n_images)]
+        dc.weights_warped = types.SimpleNamespace(array=[np.zeros(shape) for _ in range(n_images)])
+        with I.patch(iu):
+            with I.patch(drift) as npd:
+                if I.mode == "sym":
+                    r = np.empty(shape, dtype=object)
+                    for i in np.ndindex(*shape):
+                        r[i] = core.to_S(q[i]).sqrt()
+                    spectrum = r.view(SymArray)
+                    npd.fft = _FFTStub(npd.fft, spectrum)
+                    dc.knots = [lift(k.copy()) for k in knots0]
+                    common = np.zeros(shape)
+                else:
+                    common = np.fft.ifft2(np.sqrt(np.asarray(q, dtype=float)))          # fft2(common) = sqrt(q)
+                    dc.knots = [k.copy() for k in knots0]
+                dc.images_warped = types.SimpleNamespace(array=[common for _ in range(n_images)])
+                drift.DriftCorrection.align_translation(dc, upsample_factor=up, min_image_shift=min_shift, show_merged=False, show_images=False)
+        rels = [Rel("identical_images_do_not_move_the_knots", [dc.knots[i] for i in range(n_images)], [knots0[i] for i in range(n_images)],
+                    tol=1e-9, ntol=1e-6)]
+        if len(warped_calls) != n_images:
+            raise core.Unsupported("align_translation did not regenerate every image")
+        return rels
+    return claim
+
+
 def _scatter_total(weights, minlength):
     """np.bincount contract used here: a scatter-add, so the total of the output equals the total of the weights"""
     out = lift(np.zeros(minlength))
@@ -132,6 +188,9 @@ def cases(tier):
                 out.append((f"geometry[{shape};knots={knots};pad={pad}]", geometry_claim(shape, knots, pad), L))
     for shape, osh in (((2, 2), (4, 4)), ((3, 2), (5, 4)), ((1, 4), (4, 6))):
         out.append((f"unit_weight[{shape}->{osh}]", weight_claim(shape, osh), L))
+    for n_images in (2, 3):
+        for up in ((1, 3, 8) if tier == "quick" else (1, 2, 3, 4, 7, 8)):
+            out.append((f"fixed_point[{n_images} images;up={up}]", fixed_point_claim(n_images, up), dict(logic=None, max_paths=8)))
     return out
 
 
@@ -141,15 +200,19 @@ for _n, _c, _ in cases("thorough"):
 
 def run(check, tier):
     check.add_functions("DriftCorrection.preprocess (scan vectors, canvas shape, knot construction)", "DriftInterpolator.__init__",
-                        "DriftInterpolator.transform_rows", "DriftInterpolator.transform_coordinates", "imaging_utils.bilinear_kde (bilinear splat)")
+                        "DriftInterpolator.transform_rows", "DriftInterpolator.transform_coordinates", "imaging_utils.bilinear_kde (bilinear splat)",
+                        "DriftCorrection.align_translation", "imaging_utils.cross_correlation_shift / dft_upsample (fft_input, fft_output, return_shifted_image)")
     check.bounds.update(shapes="3x3, 3x5, 4x2, 5x4", knots="1..4", pad_fraction="0, 0.25, 0.5", symbolic="scan direction (any angle), "
-                        "sample coordinates and values for the splat")
+                        "sample coordinates and values for the splat; fixed point: 4x4 canvas, 2 and 3 identical images, upsampling 1, 3, 8 (thorough: 1, 2, 3, 4, 7, 8), "
+                        "all 16 power-spectrum values q_k in [0.01, 1]")
     check.stubs += ["scipy.interpolate.interp1d(kind, n = order+1 knots) -> the unique interpolating polynomial (Lagrange form)",
                     "scipy.ndimage.gaussian_filter -> a sum-preserving linear operator (identity)",
                     "np.bincount / ravel_multi_index -> scatter-add that preserves the total of the weights",
-                    "DriftInterpolator.warp_image / Dataset3d.from_shape / calculate_error are cut out of preprocess (not part of the geometry)"]
+                    "DriftInterpolator.warp_image / Dataset3d.from_shape / calculate_error are cut out of preprocess (not part of the geometry)",
+                    "fixed point: np.fft.fft2 of the identical warped images -> their common spectrum sqrt(q_k) (real, positive; the estimator only "
+                    "uses the products |F_k|^2 = q_k); warp_image after the alignment -> recorded, returns zeros"]
     check.assumptions += ["real arithmetic"]
-    check.outside += ["identical-image fixed point of align_translation (depends on the registration estimator, see C13)",
+    check.outside += ["fixed point for spectra with zeros or non-trivial phases on a canvas other than 4x4, max_image_shift smaller than the canvas",
                       "KDE width effects, merged image, affine / non-rigid alignment"]
     decide_many(check, [(n, c, dict(o, key=n.split("[")[0])) for n, c, o in cases(tier)],
-                timeout_s=90 if tier == "quick" else 400, validate=1 if tier == "quick" else 3)
+                timeout_s=90 if tier == "quick" else 400, validate=1 if tier == "quick" else 3, hard_timeout_s=240 if tier == "quick" else 900)
